@@ -66,7 +66,7 @@ def build(tier="quick", seed=0):
     it, L = engine()
     sel = L.import_module("flow.record.selector")
     base = L.import_module("flow.record.base")
-    pack = Pack("C08", "Comparisons on a field the record lacks are false and never raise")
+    pack = new_pack("C08", "Comparisons on a field the record lacks are false and never raise")
     fu = ("flow.record.selector:NoneObject.__eq__", "flow.record.selector:NoneObject.__ne__", "flow.record.selector:NoneObject.__lt__", "flow.record.selector:NoneObject.__gt__",
           "flow.record.selector:NoneObject.__le__", "flow.record.selector:NoneObject.__ge__", "flow.record.selector:NoneObject.__contains__", "flow.record.selector:NoneObject.__len__",
           "flow.record.selector:WrappedRecord.__getattr__", "flow.record.selector:CompiledSelector.match", "flow.record.selector:Selector.match",
@@ -175,6 +175,25 @@ def build(tier="quick", seed=0):
                 return prove_paths(name, th, judge, lambda m, p: {"helper": helper, "extra": extra, "wrapped": wrapped, "s": model_value(m, sv), "x": model_value(m, x)})
 
             pack.add(Obligation(name, run, replay=lambda w: {"call": "c08_helper", "args": w}, functions=fu + (f"flow.record.selector:{helper}",)))
+
+    for wrapped in (False, True):
+        name = f"C08.helper[field_regex,{'wrapped' if wrapped else 'record'}]"
+
+        def run(tier, wrapped=wrapped, name=name):
+            def th():
+                rec = mkrec()
+                r = it.instantiate(sel.g["WrappedRecord"], [rec], {}) if wrapped else rec
+                f = sel.g["field_regex"]
+                return it.call(f, [r, ["missing", "missing2"], "a.c"], {}), it.call(f, [r, ["missing", "s", "missing2"], "^a[bc]+$"], {}), it.call(f, [r, ["s"], "^a[bc]+$"], {})
+
+            def judge(p):
+                a, b, c = p.value
+                tb = lambda v: v.t if isinstance(v, SBool) else z3.BoolVal(bool(v))
+                return z3.And(z3.Not(tb(a)), tb(b) == tb(c)), f"field_regex: only-missing={a!r}, with={b!r}, without={c!r}"
+
+            return prove_paths(name, th, judge, lambda m, p: {"wrapped": wrapped, "s": model_value(m, sv) if m is not None else "abc"})
+
+        pack.add(Obligation(name, run, replay=lambda w: {"call": "c08_helper_regex", "args": w}, functions=fu + ("flow.record.selector:field_regex",)))
 
     # ---- canary: a deliberately false claim on the same machinery must be refuted and must replay
     def run_canary(tier):
